@@ -525,8 +525,10 @@ class Check:
         ev = dict(property_id=self.id, tier=self.tier, seed=self.seed, level="proof", coverage=cov,
                   assumptions=self.assumptions, wall_s=round(time.time() - self.t0, 2),
                   violations=violations)
-        os.makedirs(EVIDENCE, exist_ok=True)
-        with open(os.path.join(EVIDENCE, self.id + ".json"), "w") as f:
+        # evidence of a run against a scratch copy (VERIF_REPO) never overwrites the real evidence
+        evdir = EVIDENCE if os.path.realpath(REPO) == "/repo" else os.path.join(REPLAY, "scratch-evidence")
+        os.makedirs(evdir, exist_ok=True)
+        with open(os.path.join(evdir, self.id + ".json"), "w") as f:
             json.dump(ev, f, indent=1, default=str)
         for l in lines:
             print(l)
